@@ -3,6 +3,8 @@ package props
 import (
 	"bytes"
 	"fmt"
+	"io"
+	"testing/iotest"
 
 	"github.com/kstenerud/go-concise-encoding/ce"
 	"github.com/kstenerud/go-concise-encoding/ce/events"
@@ -32,6 +34,9 @@ type C16Op struct {
 	// Plain: marshalers (with Stream) and encoders write to a plain io.Writer (Write only) instead of a
 	// bytes.Buffer: which optional interfaces the destination implements may change from call to call
 	Plain bool `json:"plain,omitempty"`
+	// DataErr: stream decoders / unmarshalers read from a reader that returns its last bytes together with
+	// io.EOF (as io.Reader allows) instead of a separate (0, io.EOF)
+	DataErr bool `json:"data_err,omitempty"`
 }
 
 type C16Case struct {
@@ -96,6 +101,7 @@ func genC16(t *rapid.T, ctx *Ctx) interface{} {
 			op.Pos = rapid.IntRange(0, 1000).Draw(t, "pos")
 			op.Stream = rapid.Bool().Draw(t, "stream")
 			op.Plain = rapid.Bool().Draw(t, "plain")
+			op.DataErr = rapid.Bool().Draw(t, "dataerr")
 			op.Tmpl = rapid.SampledFrom(c16Templates).Draw(t, "tmpl")
 		}
 		c.Ops = append(c.Ops, op)
@@ -186,6 +192,13 @@ func c16Events(op *C16Op) []ev.Event {
 		}
 	}
 	return evs
+}
+
+func c16Reader(doc []byte, dataErr bool) io.Reader {
+	if dataErr {
+		return iotest.DataErrReader(bytes.NewReader(doc))
+	}
+	return bytes.NewReader(doc)
 }
 
 type c16Result struct {
@@ -282,7 +295,7 @@ func (in *c16Instance) apply(op *C16Op, first bool) (res c16Result) {
 		tmpl := c07Templates[op.Tmpl]()
 		var err error
 		if op.Stream {
-			res.val, err = in.u.Unmarshal(bytes.NewReader(doc), tmpl)
+			res.val, err = in.u.Unmarshal(c16Reader(doc, op.DataErr), tmpl)
 		} else {
 			res.val, err = in.u.UnmarshalFromDocument(doc, tmpl)
 		}
@@ -295,7 +308,7 @@ func (in *c16Instance) apply(op *C16Op, first bool) (res c16Result) {
 		rec := ev.NewRecorder()
 		var err error
 		if op.Stream {
-			err = in.d.Decode(bytes.NewReader(doc), ce.NewRules(rec, in.cfg))
+			err = in.d.Decode(c16Reader(doc, op.DataErr), ce.NewRules(rec, in.cfg))
 		} else {
 			err = in.d.DecodeDocument(doc, ce.NewRules(rec, in.cfg))
 		}
